@@ -55,6 +55,8 @@ def main():
             if not bl or 'body' not in inst:
                 continue
             file = inst.get('file', '?')
+            if 'rasn-compiler/src/' in file:
+                file = 'rasn-compiler/src/' + file.split('rasn-compiler/src/', 1)[1]     # the scratch copy differs per dump
             if '/rasn-compiler/src/' not in file and not file.startswith('rasn-compiler/src') and 'src/' not in file:
                 continue
             name = inst['name']
